@@ -171,6 +171,13 @@ def rule_guard(ctx, u):
         ok = bool(ge) and bi.guarded_by(c.block, ge)
         ctx.check(ok, "C03.GUARD", u.where, "%s polled only when its state says it is not finished" % c.label, site=c.where,
                   sample={"guard_edges": ge})
+        if ok:
+            # the guard is re-evaluated before every poll: no way from a poll of the child back to the same poll site
+            # (an immediate re-poll loop, a retry after a self-wake) that does not pass the state test again
+            tests = sorted({a for a, b_ in ge})
+            r = bi.body.reach(bi.body.succs(c.block), avoid_blocks=tests, stop_blocks=bi.return_blocks)
+            ctx.check(c.block not in r, "C03.GUARD", u.where, "%s is not polled again without its not-finished test being evaluated again" % c.label,
+                      site=c.where)
 
 
 # finishing marks ---------------------------------------------------------------------------------
